@@ -152,6 +152,22 @@ class Node:
         return k
 
 
+def strip_targs(s):
+    """remove balanced <...> template argument lists (not the ones of operator<, operator<=, operator<<, operator->)"""
+    out = []; depth = 0; i = 0
+    while i < len(s):
+        c = s[i]
+        if c == '<' and depth == 0 and re.search(r'operator\s*<?$', ''.join(out)):
+            out.append(c); i += 1; continue
+        if c == '<': depth += 1
+        elif c == '>' and depth > 0:
+            depth -= 1
+            i += 1; continue
+        if depth == 0: out.append(c)
+        i += 1
+    return ''.join(out)
+
+
 class Elem:
     """one CFG element"""
     __slots__ = ('kind', 'node', 'info')
@@ -313,6 +329,7 @@ class Fn:
     def __init__(self, tu, d):
         self.tu = tu; self.d = d
         self.name = d['name']; self.qname = d['qname']; self.loc = d['loc']
+        self.gname = strip_targs(d['qname'])      # generic name: no template arguments anywhere
         self._cfg = None
 
     def __getattr__(self, k):
@@ -410,6 +427,10 @@ class Facts:
         """all functions (instantiations) with this qualified name (template args stripped)"""
         return [f for f in self.fns if f.qname == qname]
 
+    def fns_g(self, gname):
+        """all functions whose generic name (template arguments stripped everywhere) is gname"""
+        return [f for f in self.fns if f.gname == gname]
+
     def cls(self, fullname):
         return self.classes.get(fullname)
 
@@ -442,7 +463,7 @@ class Facts:
         out = list(self.by_sig.get(sig, []))
         if not out:
             out = [f for f in self.by_name.get(name, []) if len(f.d['params']) == len(params)]
-        if d.get('virtual'):
+        if d.get('virtual') and not d.get('qualified'):
             for f in self.fns:
                 for o in f.d.get('overrides') or []:
                     if o['name'] == name and f not in out: out.append(f)
